@@ -232,7 +232,13 @@ impl Scenario for PosteriorScenario {
         }
         out.probe("max_abs_t_x100", (worst * 100.0) as u64);
         // no divergences after warmup on well-conditioned Gaussian targets
-        if self.target.is_gaussian() && post_div > 0 {
+        // well-conditioned: isotropic and correlated Gaussians with condition number <= 400
+        let well_conditioned = match &self.target {
+            Target::DiagNormal { sigma, .. } => sigma.iter().all(|s| *s == sigma[0]),
+            Target::DenseNormal { .. } => true,
+            _ => false,
+        };
+        if well_conditioned && post_div > 0 {
             out.violate(format!("C04/divergence_on_gaussian/{pname}"), format!("{post_div} post-warmup divergences over {k} chains"));
         }
         // momentum: standard normal, independent of earlier draws
